@@ -4,15 +4,22 @@ package pp
 
 import "github.com/ohler55/slip"
 
-// Quote represents a list.
+// Quote represents a quoted or backquoted object.
 type Quote struct {
 	child Node
+	mark  byte
 	wide  int
 	x     int
 }
 
 func newQuote(obj slip.Object, p *slip.Printer) Node {
-	return &Quote{child: buildQNode(obj, p)}
+	return &Quote{child: buildQNode(obj, p), mark: '\''}
+}
+
+// newBackquote is a quote written with a backquote. The commas inside are
+// written by the printer as leaves.
+func newBackquote(obj slip.Object, p *slip.Printer) Node {
+	return &Quote{child: buildQNode(obj, p), mark: '`'}
 }
 
 func (q *Quote) layout(left int) (w int) {
@@ -31,7 +38,7 @@ func (q *Quote) reorg(edge int) int {
 }
 
 func (q *Quote) adjoin(b []byte) []byte {
-	b = append(b, '\'')
+	b = append(b, q.mark)
 	return q.child.adjoin(b)
 }
 
